@@ -64,6 +64,8 @@ func main() {
 			usage()
 		}
 		err = record(f, c)
+	case "gen":
+		err = genOnly(f, c)
 	case "replay":
 		if f.replay == nil {
 			usage()
@@ -84,6 +86,6 @@ func usage() {
 		names = append(names, n)
 	}
 	sort.Strings(names)
-	fmt.Fprintln(os.Stderr, "usage: harness record|replay <family> [flags]; families:", names)
+	fmt.Fprintln(os.Stderr, "usage: harness record|gen|replay <family> [flags]; families:", names)
 	os.Exit(2)
 }
